@@ -9,7 +9,7 @@ import re
 import z3
 
 from domains import Num
-from interp import (Array, ChainIter, ClonedIter, EnumerateIter, MapIter, OnceIter, Opt, Panic, Ref,
+from interp import (EnumVal, Array, ChainIter, ClonedIter, EnumerateIter, MapIter, OnceIter, Opt, Panic, Ref,
                     RevIter, SkipIter, SliceIter, SliceRef, Struct, Tuple, UNIT, Unsupported, VecIntoIter,
                     VecV, ZipIter, clone_value, into_iter, read_path, write_path, IterBase)
 
@@ -100,8 +100,16 @@ def try_builtin(it, callee, args):
             for _ in range(args[1]):
                 r = dom.mul(r, a[0])
             return r
-        if name == "is_nan" and a[0].conc is not None:
-            return a[0].conc != a[0].conc
+        if name == "is_nan":
+            if a[0].conc is not None:
+                return a[0].conc != a[0].conc
+            if z3.is_fp(a[0].t):
+                return z3.fpIsNaN(a[0].t)
+            return False  # real-arithmetic interpretation: no NaN
+        if name in ("is_normal", "is_finite", "is_infinite") and a[0].conc is None and z3.is_fp(a[0].t):
+            t = a[0].t
+            return {"is_normal": z3.fpIsNormal(t), "is_finite": z3.And(z3.Not(z3.fpIsNaN(t)), z3.Not(z3.fpIsInf(t))),
+                    "is_infinite": z3.fpIsInf(t)}[name]
         try:
             return dom.unary_uf(name, a[0])
         except ValueError:
@@ -124,6 +132,49 @@ def try_builtin(it, callee, args):
         used("f64 " + m.group(1))
         write_path(r.cell, r.path, it.binop(op, cur, b))
         return UNIT
+    # ---- bool helpers
+    m = re.match(r"^core::bool::<impl bool>::(then_some|then)(?:::<.*>)?$", c)
+    if m:
+        used("bool::" + m.group(1))
+        b = args[0]
+        hit = b if isinstance(b, bool) else it.decide(b)
+        if not hit:
+            return Opt(None, False)
+        return Opt(args[1] if m.group(1) == "then_some" else it.call_closure(args[1], []), True)
+    # ---- comparisons of f64
+    if re.match(r"^<f64 as PartialOrd(?:<f64>)?>::partial_cmp$", c) or re.match(r"^(?:core|std)::f64::<impl f64>::partial_cmp$", c):
+        a, b = deref(args[0]), deref(args[1])
+        used("f64::partial_cmp")
+        if it.decide(dom.cmp("Lt", a, b)):
+            return Opt(EnumVal("Ordering", "Less", -1), True)
+        if it.decide(dom.cmp("Eq", a, b)):
+            return Opt(EnumVal("Ordering", "Equal", 0), True)
+        if it.decide(dom.cmp("Gt", a, b)):
+            return Opt(EnumVal("Ordering", "Greater", 1), True)
+        return Opt(None, False)
+    m = re.match(r"^<f64 as PartialOrd(?:<f64>)?>::(lt|le|gt|ge)$", c)
+    if m:
+        a, b = deref(args[0]), deref(args[1])
+        return dom.cmp({"lt": "Lt", "le": "Le", "gt": "Gt", "ge": "Ge"}[m.group(1)], a, b)
+    # ---- usize helpers
+    m = re.match(r"^core::num::<impl usize>::(saturating_sub|saturating_add|min|max|checked_sub|wrapping_sub)$", c)
+    if m and all(isinstance(x, int) for x in args):
+        used("usize::" + m.group(1))
+        a, b = args
+        if m.group(1) == "saturating_sub":
+            return max(a - b, 0)
+        if m.group(1) == "saturating_add":
+            return a + b
+        if m.group(1) == "min":
+            return min(a, b)
+        if m.group(1) == "max":
+            return max(a, b)
+        if m.group(1) == "checked_sub":
+            return Opt(a - b, True) if a >= b else Opt(None, False)
+    m = re.match(r"^<usize as Ord>::(min|max)$", c) or re.match(r"^(?:core|std)::cmp::(min|max)::<usize>$", c)
+    if m and all(isinstance(x, int) for x in args):
+        used("usize Ord::" + m.group(1))
+        return min(args) if m.group(1) == "min" else max(args)
     # ---- panics
     if "begin_panic" in c or "panic_fmt" in c or c.endswith("::panic") or "panicking::panic" in c:
         raise Panic(str(args[0]) if args else "panic")
@@ -160,6 +211,30 @@ def try_builtin(it, callee, args):
             if not len(sl):
                 return Opt(None, False)
             return Opt(Tuple([elem_ref(sl, 0), SliceRef(sl.cell, sl.path, sl.start + 1, sl.end)]), True)
+        if name == "split_at_checked":
+            k = args[1]
+            if k > len(sl):
+                return Opt(None, False)
+            return Opt(Tuple([SliceRef(sl.cell, sl.path, sl.start, sl.start + k), SliceRef(sl.cell, sl.path, sl.start + k, sl.end)]), True)
+        if name == "split_at":
+            k = args[1]
+            if k > len(sl):
+                raise Panic("mid > len in split_at")
+            return Tuple([SliceRef(sl.cell, sl.path, sl.start, sl.start + k), SliceRef(sl.cell, sl.path, sl.start + k, sl.end)])
+        if name == "partition_point":
+            # std's binary search: size halves, base moves right while the predicate holds
+            size, base = len(sl), 0
+            if size == 0:
+                return 0
+            from interp import Cell as _Cell
+            cl = _Cell(args[1])
+            while size > 1:
+                half = size // 2
+                mid = base + half
+                if it.decide(it.call_closure(cl, [elem_ref(sl, mid)])):
+                    base = mid
+                size -= half
+            return base + (1 if it.decide(it.call_closure(cl, [elem_ref(sl, base)])) else 0)
         raise Unsupported("slice method " + name)
     m = re.match(r"^<\[(.*)\] as (Index|IndexMut)<(.*)>>::(index|index_mut)$", c, re.S)
     if m:
@@ -239,10 +314,18 @@ def try_builtin(it, callee, args):
             if not o.some:
                 return Opt(None, False)
             return Opt(it.call_closure(args[1], [o.fields[0]]), True)
+        if name == "map_or":
+            return it.call_closure(args[2], [o.fields[0]]) if o.some else args[1]
+        if name == "and_then":
+            return it.call_closure(args[1], [o.fields[0]]) if o.some else Opt(None, False)
+        if name == "unwrap_or_else":
+            return o.fields[0] if o.some else it.call_closure(args[1], [])
+        if name == "then_some":
+            pass
         raise Unsupported("Option method " + name)
     # ---- iterators
     m = re.match(r"^<(.*) as (Iterator|DoubleEndedIterator|IntoIterator|Clone)>::(\w+)(?:::<.*>)?$", c, re.S)
-    if m and (isinstance(deref(args[0]) if args else None, (IterBase, VecV, SliceRef)) or
+    if m and (isinstance(deref(args[0]) if args else None, (IterBase, VecV, SliceRef, Array)) or
               (args and isinstance(args[0], (SliceRef,)))):
         name = m.group(3)
         used("Iterator::" + name)
@@ -254,7 +337,7 @@ def try_builtin(it, callee, args):
         if name == "next":
             x = deref(a0).next(it)
             return Opt(x, True) if x is not None else Opt(None, False)
-        itr = into_iter(a0)
+        itr = into_iter(deref(a0) if isinstance(deref(a0), IterBase) else a0)
         if name == "rev":
             return RevIter(itr)
         if name == "zip":
@@ -301,6 +384,30 @@ def try_builtin(it, callee, args):
             while itr.next(it) is not None:
                 n += 1
             return n
+        if name in ("position", "find_map", "any", "all", "find"):
+            from interp import Cell as _Cell
+            cl = _Cell(args[1])
+            i = 0
+            while True:
+                x = itr.next(it)
+                if x is None:
+                    break
+                r = it.call_closure(cl, [x] if name != "find" else [Ref(_Cell(x))])
+                if name == "find_map":
+                    if r.some:
+                        return r
+                else:
+                    hit = it.decide(r)
+                    if name == "position" and hit:
+                        return Opt(i, True)
+                    if name == "find" and hit:
+                        return Opt(x, True)
+                    if name == "any" and hit:
+                        return True
+                    if name == "all" and not hit:
+                        return False
+                i += 1
+            return {"position": Opt(None, False), "find_map": Opt(None, False), "find": Opt(None, False), "any": False, "all": True}[name]
         raise Unsupported("iterator method " + name)
     if re.match(r"^(?:std::iter::|core::iter::)?once::<.*>$", c):
         used("iter::once")
